@@ -170,12 +170,13 @@ var assumptionText = map[string]string{
 	"A-BOOL":        "A-BOOL: a Go bool in memory is the byte 0 or 1",
 	"A-INITDEFAULT": "A-INITDEFAULT: a user InitDefault() writes only inside its receiver and is deterministic",
 	"A-REGION":      "A-REGION: descriptors, input buffer, destination objects and scratch objects are pairwise disjoint on entry",
-	"A-KEY":         "A-KEY: defs.Type.String() together with the Go type determines the defs.Type tree (ttypes cache key injective)",
 	"A-HACK":        "A-HACK: the layout hacks of hack.go (rvWithPtr, rvPtr, rvTypePtr, rtTypePtr, updateIface, mapIter, maplen, sliceHeader.Zero) do what their comments say (frugal validates them at init); given assumed contracts",
 	"A-APPEND":      "A-APPEND: where the output buffer is treated as an abstract byte sequence, Go's append is sequence extension; its concrete reading (same array while the result fits the capacity, a fresh array otherwise; writes only into the spare capacity [ptr+len,ptr+cap) or fresh memory) is assumed at the boundary to concrete callers, and the spare capacity is assumed disjoint from the value being encoded",
 	"A-SIZE":        "A-SIZE: containers hold fewer than 2^31 elements (the count on the wire is the 32-bit truncation of the live length); a single in-memory element is at most 64 KiB",
 	"A-SDS":         "A-SDS: mapStructDesc.Get/Set (descmap.go) implement a map from abi type to descriptor (assumed abstract view $sds); atomic.Pointer Load/Store are sequentially consistent",
 	"A-INIT":        "A-INIT: package-level variables hold what their initialisers assign (non-nil maps, errors.New values) and are not reassigned",
+	"A-DEFS":        "A-DEFS: internal/defs (tag parser, type resolver) is not under contract; its output is assumed well-formed (wfDT: children present where the tag needs them, no pointer to pointer/container, Tag()/IsEnum() as documented; field lists with types, non-negative offsets, addressable defaults, nocopy only on strings)",
+	"A-KEY":         "A-KEY: defs.Type.String() together with the Go type determines tag, wire type and enum-ness of a parsed type (and a rank that strictly decreases towards children)",
 	"A-COMPOSE":     "A-COMPOSE: the step from per-function contracts to the whole-message statement is a structural induction over the descriptor tree written in DESIGN.md, not mechanised",
 	"A-WF":          "A-WF: descriptors handed to the codec satisfy wfT/wfSD/wfF as axiomatised in contracts_verif.go; the constructors (newTType, fromDefsFields, ...) are not yet proved to establish them",
 	"A-SOLVER":      "A-SOLVER: an 'unsat' answer of z3 5.1.0 / z3 4.8.12 / cvc5 1.0.3 is correct (recursive definitions are axiomatised, not define-fun-rec, after a spurious unsat was observed; every function's assumption set is checked not to be refutable on every run)",
@@ -609,6 +610,9 @@ func (w *World) twinObligation(tw Twin) ([]*Obligation, error) {
 		return nil, fmt.Errorf("no lemma %s", tw.Lemma)
 	}
 	fc := w.CS.Funcs[tw.Func]
+	if b := w.CS.Body[tw.Func]; b != nil {
+		fc = b
+	}
 	if fc == nil {
 		return nil, fmt.Errorf("no contract for %s", tw.Func)
 	}
